@@ -138,9 +138,9 @@ func runBitsliceCase(r *vcore.Run, a *acc, s *sysT, f *fieldCtx, c bsCfg, v *big
 	res := cs.honest()
 	switch exp.kind {
 	case kExact:
-		r.SampleClass("bitslice.Partition/honest-exact", map[string]any{"system": s.String(), "v": v.String(), "lower,upper": vstr(res.outs)})
+		a.sample("bitslice.Partition/honest-exact", map[string]any{"system": s.String(), "v": v.String(), "lower,upper": vstr(res.outs)})
 	case kUnsat:
-		r.SampleClass("bitslice.Partition/out-of-domain-rejected", map[string]any{"system": s.String(), "v": v.String(), "solver_said": errStr(res.err)})
+		a.sample("bitslice.Partition/out-of-domain-rejected", map[string]any{"system": s.String(), "v": v.String(), "solver_said": errStr(res.err)})
 	}
 	cs.confirm()
 	if c.nocheck || c.constV != nil || !doLies {
@@ -238,7 +238,12 @@ func bitsliceJobs(r *vcore.Run) []job {
 							splits[8] = true
 							splits[f.bits-2] = true
 						}
-						for split := range splits {
+						var splitList []int
+						for sp := range splits {
+							splitList = append(splitList, sp)
+						}
+						sort.Ints(splitList)
+						for _, split := range splitList {
 							if split < 0 || split >= width {
 								continue
 							}
@@ -721,8 +726,8 @@ func uintsFamily[T uints.Long](r *vcore.Run, f *fieldCtx, bld string, tableOps [
 				if r.Thorough() {
 					return ls
 				}
-				// flip-bit0, +256, packed-row(x+1), packed-row(y-1), result-of-other-op
-				return []lie{ls[0], ls[2], ls[5], ls[8], ls[9]}
+				// flip-bit0, +256, packed-row(x-1), packed-row(y-1), result-of-other-op
+				return []lie{ls[0], ls[2], ls[6], ls[8], ls[9]}
 			}
 			switch o.kind {
 			case "Xor", "Not":
@@ -763,7 +768,7 @@ func uintsFamily[T uints.Long](r *vcore.Run, f *fieldCtx, bld string, tableOps [
 				a.count(fmt.Sprintf("uints.U%d.op.%s", wb, o.kind), 1)
 				res := cs.honest()
 				if exp.kind == kExact {
-					r.SampleClass("uints/honest-exact/"+o.kind, map[string]any{"system": s.String(), "operands": vstr(vals), "result_bytes": vstr(res.outs)})
+					a.sample("uints/honest-exact/"+uintsFam(o), map[string]any{"system": s.String(), "operands": vstr(vals), "result_bytes": vstr(res.outs)})
 				}
 				if heavy && ((r.Quick() && ti != 0) || (r.Thorough() && ti%3 != 0)) {
 					cs.finish()
